@@ -1,10 +1,12 @@
 import Chewing.Proofs.TrieBufRefine
 /-!
-What `TrieBuf` *answers* (exact lookup, enumeration) against the map it denotes.
+What `TrieBuf` *answers* (exact lookup, enumeration) against the map it denotes — in **every** state.
 
-`shadowed s key`: the key is live, pending **and** present in the persisted snapshot — class
-`UpdatePersisted` of finding F10.  Outside that class the answers are exactly those of the map;
-inside it the set of phrases is still right (`lookup_texts`), the reported value / multiplicity is not.
+Before fix 8e6d504 (F10, class `UpdatePersisted`) a live key held both by the persisted snapshot and by
+the pending tree was a candidate twice: `entries()` listed it twice and the exact lookup reported the
+larger of the two frequencies; the theorems below carried the hypothesis "no key is shadowed".  The
+persisted candidate is now dropped, the candidates of an exact lookup have pairwise different texts
+(`leafOk_cands`) and the hypothesis is gone.
 -/
 namespace Chewing
 open MapSpec
@@ -12,43 +14,10 @@ open MapSpec
 namespace TrieBuf
 open Trie
 
-/-- F10 class `UpdatePersisted`: a live key held both by the persisted snapshot and by the pending tree -/
-def shadowed (s : State) (key : PKey) : Bool :=
-  !(s.grave.contains key) && (btGet s.btree key).isSome && (baseGet s.snap key).isSome
-
-theorem shadowed_iff {s : State} (hs : Inv s) {k : Key} {t : Text} :
-    shadowed s (k, t) = true ↔
-      (k, t) ∉ s.grave ∧ (∃ w, ((k, t), w) ∈ s.btree) ∧ ∃ l ∈ s.snap, l.1 = k ∧ ∃ p ∈ l.2, p.text = t := by
-  unfold shadowed
-  simp only [Bool.and_eq_true, Bool.not_eq_true', List.contains_eq_mem, decide_eq_false_iff_not, Option.isSome_iff_exists,
-    btGet_iff hs.bt, baseGet_iff hs.snap]
-  constructor
-  · rintro ⟨⟨h1, h2⟩, v, l, hl, e, p, hp, et, _⟩
-    exact ⟨h1, h2, l, hl, e, p, hp, et⟩
-  · rintro ⟨h1, h2, l, hl, e, p, hp, et⟩
-    exact ⟨⟨h1, h2⟩, valOf p, l, hl, e, p, hp, et, rfl⟩
-
-/-- without a shadowed key under `k`, the candidates of the exact lookup have pairwise different texts -/
-theorem leafOk_cands {s : State} (hs : Inv s) (k : Key) (hn : ∀ t, shadowed s (k, t) = false) :
-    LeafOk (entriesIterFor s k .standard) := by
-  rw [cands_split]
-  unfold LeafOk
-  rw [List.pairwise_append]
-  refine ⟨leafOk_filter (leafOk_lookupAll_std hs.snap k) _, leafOk_filter (leafOk_btreeRange hs.bt k) _, ?_⟩
-  intro a ha b hb e
-  rw [mem_filter_grave, mem_lookupAll_std hs.snap] at ha
-  rw [mem_filter_grave, mem_btreeRange hs.range] at hb
-  obtain ⟨⟨l, hl, el, hal⟩, hg⟩ := ha
-  obtain ⟨⟨w, hw, _⟩, _⟩ := hb
-  have : shadowed s (k, a.text) = true :=
-    (shadowed_iff hs).mpr ⟨hg, ⟨w, by rw [e]; exact hw⟩, l, hl, el, a, hal, rfl⟩
-  rw [hn a.text] at this
-  exact absurd this (by simp)
-
-/-- **exact lookup, values**: outside class `UpdatePersisted` the answer is the map's -/
-theorem lookup_agrees {s : State} (hs : Inv s) (k : Key) (hn : ∀ t, shadowed s (k, t) = false) :
+/-- **exact lookup**: the answer is the map's -/
+theorem lookup_agrees {s : State} (hs : Inv s) (k : Key) :
     IsLookup (abs s) k (lookupAll s k .standard) := by
-  have hok := leafOk_cands hs k hn
+  have hok := leafOk_cands hs k
   have hd : lookupAll s k .standard = entriesIterFor s k .standard := by
     unfold lookupAll
     exact dedup_of_nodup ((leafOk_iff _).mp hok)
@@ -58,20 +27,21 @@ theorem lookup_agrees {s : State} (hs : Inv s) (k : Key) (hn : ∀ t, shadowed s
     obtain ⟨hg, h⟩ := (mem_cands hs).mp hp
     apply (absOver_eq_some hs.snap hs.bt).mpr
     refine ⟨hg, ?_⟩
-    rcases h with ⟨l, hl, e, hpl⟩ | ⟨v, hv, hpv⟩
-    · refine Or.inr ⟨?_, l, hl, e, p, hpl, rfl, rfl⟩
-      intro w hw
-      have : shadowed s (k, p.text) = true := (shadowed_iff hs).mpr ⟨hg, ⟨w, hw⟩, l, hl, e, p, hpl, rfl⟩
-      rw [hn p.text] at this
-      exact absurd this (by simp)
+    rcases h with ⟨⟨l, hl, e, hpl⟩, hn⟩ | ⟨v, hv, hpv⟩
+    · exact Or.inr ⟨hn, l, hl, e, p, hpl, rfl, rfl⟩
     · left
       have : valOf p = v := by rw [hpv, valOf_mkPhrase]
       rw [this]; exact hv
   · intro t v hv
     exact mem_texts.mp ((cands_text_iff hs).mpr ⟨v, hv⟩)
 
-/-- **exact lookup, phrases**: in *every* reachable state the answer lists exactly the live phrases
-    of the syllables, each once (only the value may be stale inside class `UpdatePersisted`) -/
+/-- the de-duplication loop of `lookup_first_n_phrases` has nothing to do on an exact lookup -/
+theorem lookupAll_std_eq_cands {s : State} (hs : Inv s) (k : Key) :
+    lookupAll s k .standard = entriesIterFor s k .standard := by
+  unfold lookupAll
+  exact dedup_of_nodup ((leafOk_iff _).mp (leafOk_cands hs k))
+
+/-- **exact lookup, phrases**: the answer lists exactly the live phrases of the syllables, each once -/
 theorem lookup_texts {s : State} (hs : Inv s) (k : Key) :
     (texts (lookupAll s k .standard)).Nodup ∧
       ∀ t, t ∈ texts (lookupAll s k .standard) ↔ ∃ v, abs s (k, t) = some v := by
@@ -102,10 +72,11 @@ theorem mem_btEntries {bt : List (PKey × Val)} {e : Entry} :
 
 theorem mem_entries {s : State} {e : Entry} :
     e ∈ entries s ↔ (e.1, e.2.text) ∉ s.grave ∧
-      ((∃ l ∈ s.snap, l.1 = e.1 ∧ e.2 ∈ l.2) ∨ ∃ v, ((e.1, e.2.text), v) ∈ s.btree ∧ e.2 = mkPhrase e.2.text v) := by
+      (((∃ l ∈ s.snap, l.1 = e.1 ∧ e.2 ∈ l.2) ∧ ∀ w, ((e.1, e.2.text), w) ∉ s.btree) ∨
+        ∃ v, ((e.1, e.2.text), v) ∈ s.btree ∧ e.2 = mkPhrase e.2.text v) := by
   unfold entries
   simp only [List.mem_filter, List.mem_append, mem_trie_entries, mem_btEntries, List.contains_eq_mem,
-    Bool.not_eq_true', decide_eq_false_iff_not]
+    Bool.not_eq_true', decide_eq_false_iff_not, btHas_false]
   constructor
   · rintro ⟨h1, h2⟩; exact ⟨h2, h1⟩
   · rintro ⟨h1, h2⟩; exact ⟨h2, h1⟩
@@ -141,48 +112,37 @@ theorem pairwise_btEntries {bt : List (PKey × Val)} (h : KeysOk bt) :
   simp only [pkeyOf, mkPhrase] at e
   exact hab e
 
-/-- **enumeration**: outside class `UpdatePersisted` it yields exactly the live entries, each once -/
-theorem entries_agrees {s : State} (hs : Inv s) (hn : ∀ key, shadowed s key = false) :
-    IsEntries (abs s) (entries s) := by
+/-- **enumeration**: exactly the live entries, each once -/
+theorem entries_agrees {s : State} (hs : Inv s) : IsEntries (abs s) (entries s) := by
   refine ⟨?_, ?_, ?_⟩
   · show ((entries s).map pkeyOf).Nodup
     unfold List.Nodup
     rw [List.pairwise_map]
     unfold entries
-    rw [List.filter_append, List.pairwise_append]
-    refine ⟨List.Pairwise.filter _ (pairwise_trie_entries hs.snap), List.Pairwise.filter _ (pairwise_btEntries hs.bt), ?_⟩
+    refine List.Pairwise.filter _ ?_
+    rw [List.pairwise_append]
+    refine ⟨List.Pairwise.filter _ (pairwise_trie_entries hs.snap), pairwise_btEntries hs.bt, ?_⟩
     intro a ha b hb e
-    -- a persisted and a pending live entry with the same key: shadowed
-    simp only [List.mem_filter, List.contains_eq_mem, Bool.not_eq_true', decide_eq_false_iff_not] at ha hb
-    obtain ⟨ha, hg⟩ := ha
-    obtain ⟨hb, _⟩ := hb
-    rw [mem_trie_entries] at ha
-    rw [mem_btEntries] at hb
-    obtain ⟨l, hl, el, hal⟩ := ha
-    obtain ⟨w, hw, _⟩ := hb
+    -- a persisted entry that is listed has no pending entry of its key
+    simp only [List.mem_filter, Bool.not_eq_true', btHas_false] at ha
+    obtain ⟨w, hw, _⟩ := mem_btEntries.mp hb
     simp only [pkeyOf, Prod.mk.injEq] at e
-    have : shadowed s (a.1, a.2.text) = true :=
-      (shadowed_iff hs).mpr ⟨hg, ⟨w, by rw [e.1, e.2]; exact hw⟩, l, hl, el, a.2, hal, rfl⟩
-    rw [hn _] at this
-    exact absurd this (by simp)
+    exact ha.2 w (by rw [e.1, e.2]; exact hw)
   · intro e he
     obtain ⟨hg, h⟩ := mem_entries.mp he
     apply (absOver_eq_some hs.snap hs.bt).mpr
     refine ⟨hg, ?_⟩
-    rcases h with ⟨l, hl, el, hpl⟩ | ⟨v, hv, hpv⟩
-    · refine Or.inr ⟨?_, l, hl, el, e.2, hpl, rfl, rfl⟩
-      intro w hw
-      have : shadowed s (e.1, e.2.text) = true := (shadowed_iff hs).mpr ⟨hg, ⟨w, hw⟩, l, hl, el, e.2, hpl, rfl⟩
-      rw [hn _] at this
-      exact absurd this (by simp)
+    rcases h with ⟨⟨l, hl, el, hpl⟩, hn⟩ | ⟨v, hv, hpv⟩
+    · exact Or.inr ⟨hn, l, hl, el, e.2, hpl, rfl, rfl⟩
     · left
       have : valOf e.2 = v := by rw [hpv, valOf_mkPhrase]
       rw [this]; exact hv
   · intro k t v hv
     obtain ⟨hg, h⟩ := (absOver_eq_some hs.snap hs.bt).mp hv
-    rcases h with h | ⟨_, l, hl, el, p, hp, et, _⟩
+    rcases h with h | ⟨hn, l, hl, el, p, hp, et, _⟩
     · exact ⟨(k, mkPhrase t v), mem_entries.mpr ⟨hg, Or.inr ⟨v, h, rfl⟩⟩, rfl, rfl⟩
-    · refine ⟨(k, p), mem_entries.mpr ⟨by simp only [et]; exact hg, Or.inl ⟨l, hl, el, hp⟩⟩, rfl, et⟩
+    · refine ⟨(k, p), mem_entries.mpr ⟨by simp only [et]; exact hg, Or.inl ⟨⟨l, hl, el, hp⟩, ?_⟩⟩, rfl, et⟩
+      simp only [et]; exact hn
 
 end TrieBuf
 
